@@ -37,3 +37,19 @@ class cli_bitmap_resolution:
         # pixel height of every bitmap, whatever the viewBox's aspect, and fixes the strike ppem
         "resolution-is-the-bitmap-height-and-fixes-ppem": lambda fmt, viewbox, res, by_flag, result: G.cli_bitmap_problems(fmt, viewbox, res, by_flag, result) == [],
     }
+
+
+@contract("nanoemoji.write_variable_font.main", props=["C07", "C20"])
+class variable_font_post_format:
+    bounded_only = True
+    gen = G.gen_vf
+    native_call = G.run_vf
+    n_quick = 2
+    n_thorough = 2
+    ensures = {
+        # keep_glyph_names reaches the post table of a variable build as well: format 3 unless
+        # names were requested
+        "post-format-follows-keep-glyph-names": lambda keep_names, result: result["exit"] == 0
+        and result.get("has_fvar") is True
+        and result.get("post") == (2.0 if keep_names else 3.0),
+    }
